@@ -348,4 +348,29 @@ theorem formatUint_canonical (n : Nat) : canonicalDecimal (formatUint n) = true 
         simp at ha
         omega
 
+theorem isIntLit_of_canonical (b : Bytes) (h : canonicalDecimal b = true) :
+    isIntLit b = true ∧ intVal b = (bytesVal b : Int) := by
+  have hm := canonical_not_minus b h
+  constructor
+  · unfold isIntLit
+    split
+    · simp at hm
+    · exact h
+  · unfold intVal
+    split
+    · simp at hm
+    · rfl
+
+theorem formatInt_lit (i : Int) : isIntLit (formatInt i) = true ∧ intVal (formatInt i) = i := by
+  unfold formatInt
+  by_cases h : i < 0
+  · rw [if_pos h]
+    refine ⟨formatUint_canonical _, ?_⟩
+    show -(bytesVal (formatUint i.natAbs) : Int) = i
+    rw [bytesVal_formatUint]; omega
+  · rw [if_neg h]
+    obtain ⟨h1, h2⟩ := isIntLit_of_canonical _ (formatUint_canonical i.natAbs)
+    refine ⟨h1, ?_⟩
+    rw [h2, bytesVal_formatUint]; omega
+
 end JsonV.Lemmas.NumInt
